@@ -165,6 +165,9 @@ def _pred_history(f, io):
             srv[int(a[1])]["auth"] = int(a[2])
         elif a[0] == "d":
             srv[int(a[1])]["disabled"] = a[2] == "1"
+        elif a[0] == "k":
+            # Config.Clone(): a copy of every field; from here on parent and clone have their own key histories
+            srv[int(a[2])] = dict(srv[int(a[1])], kind=srv[int(a[2])]["kind"])
         elif a[0] in ("fv", "fs", "ft"):
             forged = True
             if a[0] in ("fv", "fs"):
@@ -226,6 +229,10 @@ def _pred_history(f, io):
                         why = "the ticket carries client certificates and the policy is NoClientCert"
                     elif o["pcs"] == "-" and s["auth"] in (2, 4):
                         why = "the policy requires a client certificate and the ticket has none"
+                    elif o["pcs"] != "-" and s["auth"] >= 3 and o["snap"][5] == "u":
+                        # C16_resume_attempt_outcomes: the stored chain is validated against the CURRENT ClientCAs / ClientAuth
+                        why = ("the ticket carries a client certificate whose issuer is not in the current ClientCAs and the policy "
+                               "(%d) verifies client certificates" % s["auth"])
                     if why:
                         return False, "connection %d: resumed although %s" % (ci, why)
                 if stored:
